@@ -126,6 +126,17 @@ def plan(rng, tier):
         elif r < 0.50:
             op = ["ctork", g.keylist(0, 8), rng.choice(["list", "sorted",
                                                        "gen"])]
+        elif r < 0.53:
+            # an operand that misbehaves when the extension inspects it
+            op = ["hostile",
+                  rng.choice(["union", "intersection", "difference", "|",
+                              "&", "-", "update", "ctor", "ior", "iand",
+                              "isub", "multiunion", "weightedUnion",
+                              "weightedIntersection", "isdisjoint"]),
+                  rng.randrange(2),
+                  rng.choice(["class-raises", "iter-raises", "next-raises",
+                              "items-raises", "len-raises"]),
+                  g.keylist(0, 5), rng.randrange(4)]
         else:
             if rng.random() < 0.3:
                 g.phase = rng.choice(["grow", "mixed", "shrink"])
@@ -179,6 +190,80 @@ def _tracked(dom):
     return out
 
 
+class HostileError(Exception):
+    pass
+
+
+def _hostile(how, ks, after):
+    """an operand whose inspection raises HostileError at a chosen point"""
+    def boom(*a):
+        raise HostileError(how)
+
+    def it(self):
+        if how == "iter-raises":
+            raise HostileError(how)
+        for i, k in enumerate(ks):
+            if how == "next-raises" and i >= after:
+                raise HostileError(how)
+            yield k
+        if how == "next-raises":
+            raise HostileError(how)
+    ns = {"__iter__": it}
+    if how == "class-raises":
+        ns["__class__"] = property(boom)
+    if how == "items-raises":
+        ns["items"] = boom
+    if how == "len-raises":
+        ns["__len__"] = boom
+        ns["__getitem__"] = boom
+    return type("H", (object,), ns)()
+
+
+def _do_hostile(c, op, dom, kind):
+    _, what, pos, how, kidx, after = op
+    h = _hostile(how, [dom.key(k) for k in kidx], after)
+    mod = dom.mod
+    a, b = (h, c) if pos == 0 else (c, h)
+    if what in ("union", "intersection", "difference"):
+        r = getattr(mod, what)(a, b)
+    elif what in ("weightedUnion", "weightedIntersection"):
+        f = getattr(mod, what, None)
+        if f is None:
+            return
+        r = f(a, b)
+    elif what == "multiunion":
+        f = getattr(mod, "multiunion", None)
+        if f is None:
+            return
+        r = f([c, h] if pos else [h, c])
+    elif what == "|":
+        r = c | h
+    elif what == "&":
+        r = c & h
+    elif what == "-":
+        r = c - h
+    elif what == "update":
+        r = c.update(h)
+    elif what == "ctor":
+        r = type(c)(h)
+    elif what == "isdisjoint":
+        if not hasattr(c, "isdisjoint"):
+            return
+        r = c.isdisjoint(h)
+    else:
+        if is_mapping(kind):
+            return
+        if what == "ior":
+            c |= h
+        elif what == "iand":
+            c &= h
+        else:
+            c -= h
+        r = None
+    if r is not None and hasattr(r, "__len__"):
+        len(r)
+
+
 def _do(c, op, dom, kind, seqs, live):
     """-> outcome class (no references to keys/values are returned)"""
     name = op[0]
@@ -214,6 +299,14 @@ def _do(c, op, dom, kind, seqs, live):
             else:
                 r = c - other
             len(r)
+            return "ok"
+        if name == "hostile":
+            try:
+                _do_hostile(c, op, dom, kind)
+            finally:
+                # (an exception a C function left set although it returned
+                # normally would surface at some later call)
+                ops._FLUSH()
             return "ok"
         if name in ("resolve", "ctork"):
             r = cmpfault._do({"cfg": {"kind": kind, "impl": "c"}, "op": op},
@@ -332,11 +425,16 @@ def execute(plan, ctx):
             opn = op[0] if op[0] != "mod" else op[1]
             if opn == "binop":
                 opn = "op" + op[1]
+            if opn == "hostile":
+                opn = "hostile:%s:%s" % (op[1], op[3])
+                ctx.fault("hostile-operand")
             ctx.ev(opn, out)
             if opn in ("set", "del", "pop", "popd", "popitem", "update",
                        "clear", "add", "remove", "discard", "spop",
                        "supdate", "ior", "iand", "isub", "ixor",
-                       "setdefault", "insert", "sinsert"):
+                       "setdefault", "insert", "sinsert") or (
+                    op[0] == "hostile" and op[1] in ("update", "ior", "iand",
+                                                     "isub")):
                 # a held lazy sequence keeps leaves alive; after a mutation
                 # those may be leaves the tree no longer owns -- close them
                 # so that the ledger's walk sees every live slot
